@@ -371,6 +371,7 @@ DEFAULT_PROFILE = dict(
     p_hostile_doc=0.0,
     route_result_kinds=None,
     p_route_container_result=0.0,
+    p_twin_subtype_trees=0.0,
     route_alias_user_only=False,
 )
 
@@ -968,6 +969,30 @@ class Gen:
             items.append((tag, (ns.name, leaf.name)))
         root.subtypes = {'closed': r.random() < 0.4, 'items': items}
         self.m.feature('subtypes_closed' if root.subtypes['closed'] else 'subtypes_open')
+        if self.p.get('p_twin_subtype_trees') and r.random() < self.p['p_twin_subtype_trees']:
+            # a second tree whose leaves carry the same subtype tags, and a struct that holds values of
+            # both trees in one document (tables keyed by the tag alone would mix the trees up)
+            root2 = self.gen_struct(ns, parent=False, n_fields=r.choice([0, 1]))
+            key2 = (ns.name, root2.name)
+            self.no_extend.add(key2)
+            items2 = []
+            for tag, _ in items:
+                if tag in self.names_in_tree(key2):
+                    continue
+                leaf = self.gen_struct(ns, parent=key2, n_fields=r.choice([1, 2]))
+                self.no_extend.add((ns.name, leaf.name))
+                self.names_in_tree(key2).add(tag)
+                items2.append((tag, (ns.name, leaf.name)))
+            if items2:
+                root2.subtypes = {'closed': r.random() < 0.4, 'items': items2}
+                holder = self.gen_struct(ns, parent=False, n_fields=0)
+                lst = lambda d_: T('list', args={'item': ref(d_.ns, d_.name), 'min_items': None, 'max_items': None})
+                for d_, wrap in ((root, r.choice([lst, lambda x: ref(x.ns, x.name)])), (root2, lst)):
+                    holder.fields.append(FieldDef(name=self.fresh_member_name((holder.ns, holder.name), []),
+                                                  type=wrap(d_), default=None, doc=None, anns=[]))
+                self.m.feature('twin_subtype_trees')
+            else:
+                ns.defs.remove(root2)
         return root
 
     def gen_union(self, ns):
